@@ -19,6 +19,7 @@ RULE = (
     "neither perfectly separated nor perfectly inverted (a genuine interior crossing); distinct by construction"
 )
 ASSUMPTIONS = [
+    "two-density data sets (one class packed into a window of 1e-3 .. 1e-10 between sparse scores of the other) are judged to 1.001 samples: e is interpolated and exceeds the neighbouring step by the interpolation fraction",
     "one sample = 1/(all samples of the class, easy included); slack 1e-9 for the bisection (xtol 1e-10)",
     "EER threshold equivariance to 1e-6 of the score range (bisection result)",
     "affine maps a in {1/2,2,3}, b in {-3,1/4,100}",
@@ -52,6 +53,9 @@ def work(tier, seed):
     for width in (1e-3, 1e-6, 1e-8, 1e-10):
         for dense in ("pos", "neg"):
             items.append({"two_density": width, "dense": dense, "n": 1001})
+    for width, n_ in ((1e-7, 3000), (1e-9, 400)):
+        for dense in ("pos", "neg"):
+            items.append({"two_density": width, "dense": dense, "n": n_, "irregular": True})
     P, Q = b["all_types_max"]
     for bl in ot.order_types(P, Q, 1, 1):
         if bl in seen:
@@ -111,6 +115,8 @@ def run(item, ctx, tier, seed):
     if "two_density" in item:
         w, n = item["two_density"], item["n"]
         packed = (2.0 + w * np.arange(n) / (n - 1)).tolist()
+        if item.get("irregular"):  # irregular spacing inside the window (a fixed low-discrepancy sequence)
+            packed = sorted(set((2.0 + w * ((np.arange(n) * 0.6180339887498949) % 1.0)).tolist()))
         for sparse in ([0.0, 1.0, 3.0, 4.0], [1.0, 2.0 + w / 3, 2.0 + 2 * w / 3 + w / (7 * n), 5.0, 6.0]):
             sparse = [v for v in sparse if v not in set(packed)]
             pos, neg = (packed, sparse) if item["dense"] == "pos" else (sparse, packed)
@@ -130,7 +136,10 @@ def run(item, ctx, tier, seed):
                     fpr, fnr = float(s.fpr(t)), float(s.fnr(t))
                     NP, NN = len(pos) + ep, len(neg) + en
                     ctx.outcome((w, item["dense"], cfg, ep, en, round(e, 9)))
-                    if not (0 <= e <= 1 and abs(fpr - e) <= 1.0 / NN + 1e-9 and abs(fnr - e) <= 1.0 / NP + 1e-9
+                    # e is an interpolated rate: inside a packed class it exceeds the neighbouring step of the other rate by
+                    # the interpolation fraction (about 1e-5 samples on these data, on the unchanged tree as well), so "one
+                    # sample" is read here as 1.001 samples
+                    if not (0 <= e <= 1 and abs(fpr - e) <= 1.001 / NN + 1e-9 and abs(fnr - e) <= 1.001 / NP + 1e-9
                             and e <= min(len(pos) / NP, len(neg) / NN) + 1e-12):
                         ctx.fail("crossing-point-on-two-density-data", case, observed={"t": t, "eer": e, "fpr": fpr, "fnr": fnr,
                                  "fnr_off_by_samples": abs(fnr - e) * NP, "fpr_off_by_samples": abs(fpr - e) * NN},
